@@ -2,6 +2,7 @@ import inspect
 import math
 import re
 import sys
+import threading
 import warnings
 import ast
 from collections import OrderedDict
@@ -558,6 +559,11 @@ def register_pretty(type=None, predicate=None):
     return decorator
 
 
+# Moving a deferred printer to the dispatch registry is a check-then-act
+# sequence on shared module state; every print goes through it.
+_DEFERRED_DISPATCH_LOCK = threading.RLock()
+
+
 def is_registered(
     type,
     *,
@@ -569,6 +575,23 @@ def is_registered(
         raise ValueError(
             'register_deferred may not be True when check_deferred is False'
         )
+
+    with _DEFERRED_DISPATCH_LOCK:
+        return _is_registered(
+            type,
+            check_superclasses=check_superclasses,
+            check_deferred=check_deferred,
+            register_deferred=register_deferred
+        )
+
+
+def _is_registered(
+    type,
+    *,
+    check_superclasses,
+    check_deferred,
+    register_deferred
+):
 
     if check_deferred:
         # Check deferred printers for the type exactly. A pending by-name
